@@ -166,7 +166,18 @@ func (in *Interp) visitInstr(fr *frame, instr ssa.Instruction) continuation {
 		fr.env[fr.info.idx[instr]] = in.conv(instr.Type(), instr.X.Type(), fr.get(instr.X))
 
 	case *ssa.SliceToArrayPointer:
-		in.unsupported("SliceToArrayPointer")
+		// as x/tools/go/ssa/interp: the array shares the slice's backing store
+		x, _ := fr.get(instr.X).([]value)
+		n := int(instr.Type().Underlying().(*types.Pointer).Elem().Underlying().(*types.Array).Len())
+		if len(x) < n {
+			tpanic("cannot convert slice with length %d to array or pointer to array with length %d", len(x), n)
+		}
+		if n == 0 && x == nil {
+			fr.env[fr.info.idx[instr]] = (*value)(nil)
+		} else {
+			var cell value = array(x[:n:n])
+			fr.env[fr.info.idx[instr]] = &cell
+		}
 
 	case *ssa.MakeInterface:
 		fr.env[fr.info.idx[instr]] = iface{t: instr.X.Type(), v: fr.get(instr.X)}
@@ -196,7 +207,13 @@ func (in *Interp) visitInstr(fr *frame, instr ssa.Instruction) continuation {
 		fr.runDefers()
 
 	case *ssa.Panic:
-		panic(targetPanic{v: fr.get(instr.X)})
+		tp := targetPanic{v: fr.get(instr.X)}
+		if fr.g != nil && fr.g.lastRecovered != "" {
+			// a recovered panic that is raised again keeps its original location
+			w := fr.fn.String() + " at " + fr.in.prog.Fset.Position(instr.Pos()).String() + " [this goroutine recovered an earlier panic: " + fr.g.lastRecovered + "]"
+			tp.where = &w
+		}
+		panic(tp)
 
 	case *ssa.Send:
 		in.chanSend(fr.g, fr.get(instr.Chan), fr.get(instr.X))
@@ -539,6 +556,7 @@ func (in *Interp) runFrame(fr *frame) {
 		nonPhis := executePhis(fr)
 		for _, instr := range nonPhis {
 			fr.cur = instr
+			in.curFr = fr
 			if in.visitInstr(fr, instr) == kReturn {
 				return
 			}
@@ -585,6 +603,9 @@ func (in *Interp) doRecover(caller *frame) value {
 		caller.caller.panic = nil
 		switch p := p.(type) {
 		case targetPanic:
+			if p.where != nil && caller.g != nil {
+				caller.g.lastRecovered = toString(p.v) + " in " + *p.where
+			}
 			if _, ok := p.v.(iface); ok {
 				return p.v
 			}
